@@ -49,6 +49,16 @@ pub open spec fn dropz(s: Seq<u32>, z: Seq<usize>, from: int, upto: int) -> nat
         dropz(s, z, from, upto - 1) + (if z.contains((upto - 1) as usize) { 0nat } else { tbytes(s[upto - 1]).len() })
     }
 }
+/// bytes the tokens from `from` on occupy IN THE PARSER: a token matched by id against forced "\xFF[id]" bytes (index recorded
+/// in `f`) occupies that spelling, not its own bytes
+pub uninterp spec fn special_len(t: u32) -> nat;
+pub open spec fn dropp(s: Seq<u32>, z: Seq<usize>, f: Seq<usize>, from: int, upto: int) -> nat
+    decreases upto - from
+{
+    if upto <= from { 0 } else {
+        dropp(s, z, f, from, upto - 1) + (if z.contains((upto - 1) as usize) { 0nat } else if f.contains((upto - 1) as usize) { special_len(s[upto - 1]) } else { tbytes(s[upto - 1]).len() })
+    }
+}
 pub proof fn lemma_decz_take(s: Seq<u32>, z: Seq<usize>, m: int)
     requires 0 <= m <= s.len(),
     ensures decz(s, z).len() == decz(s.take(m), z).len() + dropz(s, z, m, s.len() as int),
@@ -92,6 +102,11 @@ impl ShimTrie {
     pub fn token_len(&self, t: TokenId) -> (r: usize)
         ensures r == tbytes(t).len(), 1 <= r <= 0x1_0000_0000,
     { unimplemented!() }
+    /// TokTrie::decode_as_special: "\xFF[id]" (only its length matters here: at most 13 bytes)
+    #[verifier::external_body]
+    pub fn decode_as_special(&self, t: TokenId) -> (r: Vec<u8>)
+        ensures r@.len() == special_len(t), 4 <= r@.len() <= 13,
+    { unimplemented!() }
 }
 pub struct ShimParser { pub ghost rolled: Seq<int>, pub ghost eos_scans: nat, pub ghost will_fail: bool }
 impl ShimParser {
@@ -122,6 +137,7 @@ pub struct TokenParser {
     pub llm_tokens: Vec<TokenId>,
     pub llm_bytes: Vec<u8>,
     pub eos_without_bytes: Vec<usize>,
+    pub forced_by_id: Vec<usize>,
     pub eos_tokens: Vec<TokenId>,
     pub ghost cleared: nat,
 }
@@ -150,7 +166,7 @@ impl TokenParser {
     #[verifier::external_body]
     pub fn clear_caches(&mut self)
         ensures final(self).cleared == old(self).cleared + 1, final(self).llm_tokens == old(self).llm_tokens, final(self).llm_bytes == old(self).llm_bytes,
-            final(self).eos_without_bytes == old(self).eos_without_bytes, final(self).parser == old(self).parser, final(self).stop_reason == old(self).stop_reason,
+            final(self).eos_without_bytes == old(self).eos_without_bytes, final(self).forced_by_id == old(self).forced_by_id, final(self).parser == old(self).parser, final(self).stop_reason == old(self).stop_reason,
             final(self).max_tokens_total == old(self).max_tokens_total, final(self).had_rollback == old(self).had_rollback, final(self).is_fresh == old(self).is_fresh,
     { unimplemented!() }
 
@@ -170,8 +186,11 @@ impl TokenParser {
 //@ ret res
 //@ rewrite R7 :: for (idx, tok) in self.llm_tokens.iter().enumerate().skip(new_len) { ==> let mut verif_i: usize = new_len; while verif_i < self.llm_tokens.len() { let idx = verif_i; let tok = &self.llm_tokens[verif_i]; verif_i += 1;
 //@ rewrite R25 :: self.eos_without_bytes.contains(&idx) ==> vec_contains_usize(&self.eos_without_bytes, idx)
+//@ rewrite R25 :: self.forced_by_id.contains(&idx) ==> vec_contains_usize(&self.forced_by_id, idx)
 //@ rewrite R24 :: self.eos_without_bytes.retain(|&idx| idx < new_len); ==> retain_below(&mut self.eos_without_bytes, new_len);
+//@ rewrite R24 :: self.forced_by_id.retain(|&idx| idx < new_len); ==> retain_below(&mut self.forced_by_id, new_len);
 //@ rewrite R8 :: let mut bytes_to_drop = 0; ==> let mut bytes_to_drop: usize = 0;
+//@ rewrite R8 :: let mut parser_bytes_to_drop = 0; ==> let mut parser_bytes_to_drop: usize = 0;
 //@ spec
     requires old(self).zinv(), old(self).llm_tokens@.len() < 0x7fff_ffff,
     ensures
@@ -182,8 +201,14 @@ impl TokenParser {
             &&& n_tokens <= old(self).llm_tokens@.len()
             &&& final(self).llm_tokens@ == old(self).llm_tokens@.take(new_len)
             &&& final(self).zinv()
-            // the parser was asked to drop exactly the bytes the dropped tokens had contributed
-            &&& final(self).parser.rolled == old(self).parser.rolled.push(old(self).llm_bytes@.len() - final(self).llm_bytes@.len())
+            // the parser was asked to drop exactly the bytes the dropped tokens occupy in it: what they had contributed to
+            // llm_bytes, except that a token matched by id against forced "\xFF[id]" bytes occupies that spelling
+            &&& final(self).parser.rolled == old(self).parser.rolled.push(
+                    dropp(old(self).llm_tokens@, old(self).eos_without_bytes@, old(self).forced_by_id@, new_len, old(self).llm_tokens@.len() as int) as int)
+            &&& (forall|i: usize| new_len <= i < old(self).llm_tokens@.len() ==> !old(self).forced_by_id@.contains(i)) ==>
+                    final(self).parser.rolled == old(self).parser.rolled.push(old(self).llm_bytes@.len() - final(self).llm_bytes@.len())
+            // no record about a dropped token survives
+            &&& forall|i: usize| final(self).forced_by_id@.contains(i) <==> (old(self).forced_by_id@.contains(i) && i < new_len)
             &&& old(self).llm_bytes@.len() - final(self).llm_bytes@.len() == dropz(old(self).llm_tokens@, old(self).eos_without_bytes@, new_len, old(self).llm_tokens@.len() as int)
             // a normal stop is undone; an error stop makes rollback fail
             &&& final(self).stop_reason == StopReason::NotStopped
@@ -198,17 +223,22 @@ impl TokenParser {
                  || old(self).stop_reason == StopReason::NoExtension || old(self).stop_reason == StopReason::NoExtensionBias)) ==> res is Ok,
         // a failed rollback leaves the history alone
         res is Err ==> final(self).llm_tokens == old(self).llm_tokens && final(self).llm_bytes == old(self).llm_bytes
-            && final(self).eos_without_bytes == old(self).eos_without_bytes && final(self).parser.rolled == old(self).parser.rolled,
+            && final(self).eos_without_bytes == old(self).eos_without_bytes && final(self).parser.rolled == old(self).parser.rolled
+            && final(self).forced_by_id == old(self).forced_by_id,
 //@ body_start
     let ghost t0 = self.llm_tokens@;
+    let ghost f0 = self.forced_by_id@;
     let ghost z0 = self.eos_without_bytes@;
     let ghost b0 = self.llm_bytes@;
 //@ loop 1
     invariant
-        self.llm_tokens@ == t0, self.eos_without_bytes@ == z0, self.llm_bytes@ == b0, t0.len() < 0x7fff_ffff,
+        self.llm_tokens@ == t0, self.eos_without_bytes@ == z0, self.llm_bytes@ == b0, self.forced_by_id@ == f0, t0.len() < 0x7fff_ffff,
         new_len <= verif_i <= t0.len(),
         bytes_to_drop == dropz(t0, z0, new_len as int, verif_i as int),
         bytes_to_drop <= (verif_i - new_len) * 0x1_0000_0000,
+        parser_bytes_to_drop == dropp(t0, z0, f0, new_len as int, verif_i as int),
+        parser_bytes_to_drop <= (verif_i - new_len) * 0x1_0000_0000,
+        (forall|i: usize| new_len <= i < verif_i ==> !f0.contains(i)) ==> parser_bytes_to_drop == bytes_to_drop,
     decreases t0.len() - verif_i,
 //@ before ensure!(bytes_to_drop
     proof { lemma_decz_take(t0, z0, new_len as int); }
